@@ -47,7 +47,7 @@ def h2b(F, maxsep):
             f_ = w.fresh_str(f"f{i}", F)
             if w.symbolic:
                 for c in f_.cs:
-                    w.p.add(c != 59)  # the separator count is enumerated, not the field content
+                    w.p.add(z3.Not(c == 59))  # the separator count is enumerated, not the field content
             fields.append(f_)
         term = w.pick(["\n", "", "\r\n", " \n"], "terminator")
         parts = []
